@@ -16,7 +16,9 @@ RULE = ("Programs: small feature trees (scenarios, outlines, rules, backgrounds 
         "i-th announced step and the step's final status; first and last recorder see identical streams; (2) JSON output parses, "
         "its features/elements/steps/tables/doc-strings/statuses are those of the model, each status on its own element, and "
         "JsonParser reads it back to the same structure; (3) plain / progress2 / progress3 show each processed step once with "
-        "its final status; each formatter's output is independent of the line-up. Non-trivial = distinct case with a non-pass "
+        "its final status; each formatter's output is independent of the line-up; formatters built from real `-f FORMAT "
+        "[-o OUTFILE]` arguments (every ordered choice of 1-3 formats x every number of outfiles) write their own report "
+        "into their own file / stdout. Non-trivial = distinct case with a non-pass "
         "outcome, a hidden scenario or > 1 formatter.")
 ASSUMPTIONS = ["JSON has no element for rules: scenarios of rules are compared as flat feature elements",
                "text formatters are parsed with regexes written from their documented layout; colour escapes are stripped first"]
@@ -391,6 +393,82 @@ def run_case(case):
             "dg": (obs["events"], [(k, mask(s.getvalue())) for k, s in sorted(outs.items())])}
 
 
+def files_case(case):
+    """formatters built the way behave builds them: `-f FORMAT [-o OUTFILE]` pairs through the real Configuration and
+    make_formatters(); the i-th outfile belongs to the i-th format, surplus formats write to stdout"""
+    import tempfile, shutil, os
+    feat, cfgname, formats, nout = case
+    prog = (feat, P.F((P.S(("pass",)),)))
+    cfg = dict(SWITCHES[cfgname])
+    d = tempfile.mkdtemp(prefix="c15_", dir="/dev/shm" if os.path.isdir("/dev/shm") else None)
+    try:
+        extra = list(cfg.get("extra", []))
+        paths = []
+        for i, f in enumerate(formats):
+            extra += ["-f", f]
+        for i in range(nout):
+            pth = os.path.join(d, "out%d.txt" % i)
+            paths.append(pth)
+            extra += ["-o", pth]
+        cfg["extra"] = extra
+
+        def fm(config, o2p):
+            from behave.formatter._registry import make_formatters
+            return make_formatters(config, config.outputs)
+        obs = harness.run_case(prog, cfg, formatters=fm, keep_model=True)
+        ref = refrun.predict(prog, cfg)
+        v = []
+        if obs["escaped"]:
+            v.append(({"subcheck": "outfiles", "clause": "exception-escapes-run", "exc": obs["escaped"],
+                       "surplus_formats": str(len(formats) - nout)},
+                      "run() raised %s: %s with -f %r and %d outfiles" % (obs["escaped"], obs.get("escaped_msg"), formats, nout)))
+            return {"v": v, "dg": obs["escaped"], "out": "escaped"}
+        feats, o2p, p2o, runner, config = obs["model"]
+        show_skipped = cfg.get("show_skipped", True)
+        texts = []
+        for i, f in enumerate(formats):
+            if i < nout:
+                try:
+                    text = open(paths[i], encoding="utf-8").read()
+                except Exception as e:
+                    v.append(({"subcheck": "outfiles", "clause": "outfile-missing", "formatter": f},
+                              "outfile #%d of formatter %s: %r" % (i, f, e)))
+                    continue
+            elif len(formats) - nout == 1:
+                text = obs["stdout"]
+            else:
+                continue        # several formatters share stdout: interleaved, not separated here
+            where = "outfile" if i < nout else "stdout"
+            vv = []
+            if f in ("json", "json.pretty"):
+                vv = check_json(text, f, prog, ref, obs, show_skipped, (feats, o2p, p2o))
+            elif f == "plain":
+                vv = check_plain(text, f, prog, ref, obs)
+            elif f in ("progress2", "progress3"):
+                vv = check_dots(text, f, prog, ref, obs)
+            for dd, msg in vv:
+                dd["where"] = where
+                dd["surplus_formats"] = str(len(formats) - nout)
+            v += vv
+            texts.append((i, f, mask(text)))
+        return {"v": v, "nt": digest(case), "out": ("files", len(formats), nout, obs["verdict"]), "dg": texts}
+    finally:
+        shutil.rmtree(d, ignore_errors=True)
+
+
+def files_cases(tier):
+    quick = tier == "quick"
+    progs = [p for i, p in enumerate(programs(tier)) if i % (23 if quick else 7) == 1]
+    fmts = ("json", "plain", "progress3", "json.pretty", "progress2")
+    for pr in progs:
+        for n in (1, 2, 3):
+            for formats in itertools.permutations(fmts[:4] if quick else fmts, n):
+                for nout in range(0, n + 1):
+                    if n == 3 and quick and nout not in (1, 2):
+                        continue
+                    yield (pr, "default", formats, nout)
+
+
 def mask(text):
     text = re.sub(r"\d+\.\d+(e-?\d+)?s?", "T", text)
     text = re.sub(r'"duration": [\d.e-]+', '"duration": T', text)
@@ -460,4 +538,5 @@ def run(ctx):
     ctx.bounds = {"formatters": len(FORMATTERS), "lineup_size": "1-2 all ordered; 3 over a 5-formatter core",
                   "deviations": 1 if ctx.quick else 2, "switch_combinations": len(SWITCHES)}
     ctx.sweep(run_case, cases(ctx.tier), chunk=24, name="programs x formatter line-ups x switches")
+    ctx.sweep(files_case, files_cases(ctx.tier), chunk=16, name="-f/-o pairs through Configuration and make_formatters")
     ctx.guard(len(ctx.outcomes) > 30, "at least 30 distinct outcome classes")
